@@ -182,6 +182,7 @@ func ExecSchema(r *rand.Rand, o SchemaOpts) *model.Schema {
 	q.Fields = append(q.Fields, &model.FieldDef{Name: "hello", Type: model.Named("String")})
 	q.Fields = append(q.Fields, &model.FieldDef{Name: "self", Type: model.Named("Query")})
 	q.Fields = append(q.Fields, &model.FieldDef{Name: "selfReq", Type: model.NonNullOf(model.Named("Query"))})
+	q.Fields = append(q.Fields, &model.FieldDef{Name: "selfList", Type: model.ListOf(model.Named("Query"))})
 	if o.Args {
 		for i, n := 0, 1+r.Intn(3); i < n; i++ {
 			f := &model.FieldDef{Name: fmt.Sprintf("echo%d", i), Type: model.Named("String"), Echo: true}
